@@ -149,7 +149,8 @@ type World struct {
 	kmsRequests  [][]byte
 	sensPayloads [][]byte
 
-	prng *simrt.Rand
+	prng    *simrt.Rand
+	foreign *ForeignNode
 }
 
 // New creates an empty world inside a running simulation.
@@ -443,6 +444,39 @@ func (w *World) KeyPlain() map[string]string {
 			if err == nil {
 				out[refimpl.FP(b)] = fmt.Sprintf("%s@%d", id, c)
 			}
+		}
+	}
+	return out
+}
+
+// SKMismatchFallbacks returns, per process, the created stamps of system keys that were looked up
+// by an intermediate-key creation that lost its insert and then adopted a stored IK wrapped under
+// a *different* system key than the one it had just used (the "system key just rotated" branch).
+func (w *World) SKMismatchFallbacks() map[int]map[int64]bool {
+	out := map[int]map[int64]bool{}
+	type key struct {
+		op *OpRec
+		id string
+	}
+	lastStoreParent := map[key]int64{}
+	failed := map[key]bool{}
+	for _, c := range w.Calls {
+		if c.Op == nil || !strings.HasPrefix(c.ID, "_IK_") {
+			continue
+		}
+		k := key{c.Op, c.ID}
+		switch c.Class {
+		case "ms.store":
+			lastStoreParent[k] = c.Parent
+			failed[k] = c.Result != "ok"
+		case "ms.latest":
+			if failed[k] && c.Result == "ok" && c.Parent != 0 && c.Parent != lastStoreParent[k] {
+				if out[c.Proc] == nil {
+					out[c.Proc] = map[int64]bool{}
+				}
+				out[c.Proc][c.Parent] = true
+			}
+			failed[k] = false
 		}
 	}
 	return out
